@@ -118,15 +118,15 @@ type Thread struct {
 	Frames []*Frame
 	Status ThreadStatus
 	// blocking condition, re-evaluated by the scheduler
-	Block   *BlockCond
-	Panic   *PanicInfo
-	Name    string
-	Result  Value // return value of the root function
-	Sleeps  int
-	LastSig string // state signature at last poll-sleep (stutter reduction)
-	NoYield bool
-	EventFired bool
-	Slept bool
+	Block       *BlockCond
+	Panic       *PanicInfo
+	Name        string
+	Result      Value // return value of the root function
+	Sleeps      int
+	LastSig     string // state signature at last poll-sleep (stutter reduction)
+	NoYield     bool
+	EventFired  bool
+	Slept       bool
 	SendPending bool
 }
 
@@ -214,15 +214,15 @@ type State struct {
 	// ghost key/value store for harness monitors
 	Ghost map[string]Value
 	// set when the state ended
-	Ended   bool
-	Cut     string
-	Timers  []Timer
-	Clock   *Term // last time.Now() value (non-decreasing), nil if unused
-	ClockN  int
-	Crashed bool
+	Ended    bool
+	Cut      string
+	Timers   []Timer
+	Clock    *Term // last time.Now() value (non-decreasing), nil if unused
+	ClockN   int
+	Crashed  bool
 	NoReplay bool // path depends on environment content that native replay cannot reproduce
-	FSOps   int
-	CrashAt int // -1: no crash planned
+	FSOps    int
+	CrashAt  int // -1: no crash planned
 	// facts known true (syntactic) for cheap branch decisions
 	known map[string]bool
 	Conc  map[string]int64     // concretised terms (immutable map, replaced on write)
@@ -232,22 +232,23 @@ type State struct {
 }
 
 type LockState struct {
-	W bool
-	R int
+	W     bool
+	R     int
 	Owner int
 }
 
 func ptrKey(p Ptr) string { return fmt.Sprintf("%d%v", p.Obj, p.Path) }
 
 type Timer struct {
-	ID      int
-	Chan    int // channel object
-	Armed   bool
-	Fired   bool
-	Order   int // arming order
-	Dur     *Term
-	Kind    string
-	OnFire  func(st *State)
+	ID       int
+	Chan     int // channel object
+	Armed    bool
+	Fired    bool
+	Order    int // arming order
+	Dur      *Term
+	ArmClock *Term // program clock when the timer was armed (nil: unknown)
+	Kind     string
+	OnFire   func(st *State)
 }
 
 func NewState() *State {
